@@ -546,10 +546,13 @@ vbi3_bit_slicer_slice_with_points
 	points_start = points;
 	*n_points = 0;
 
-	if (bs->payload > buffer_size * 8) {
+	/* bs->payload counts bits for the bitwise routines (endian 3, 2)
+	   and octets for the octet routines (endian 1, 0). */
+	if (bs->payload > buffer_size * ((bs->endian >= 2) ? 8 : 1)) {
 		warning (&bs->log,
-			 "buffer_size %u < %u bits of payload.",
-			 buffer_size * 8, bs->payload);
+			 "buffer_size %u < %u %s of payload.",
+			 buffer_size, bs->payload,
+			 (bs->endian >= 2) ? "bits" : "bytes");
 		return FALSE;
 	}
 
@@ -614,10 +617,13 @@ vbi3_bit_slicer_slice		(vbi3_bit_slicer *	bs,
 	assert (NULL != buffer);
 	assert (NULL != raw);
 
-	if (bs->payload > buffer_size * 8) {
+	/* bs->payload counts bits for the bitwise routines (endian 3, 2)
+	   and octets for the octet routines (endian 1, 0). */
+	if (bs->payload > buffer_size * ((bs->endian >= 2) ? 8 : 1)) {
 		warning (&bs->log,
-			 "buffer_size %u < %u bits of payload.",
-			 buffer_size * 8, bs->payload);
+			 "buffer_size %u < %u %s of payload.",
+			 buffer_size, bs->payload,
+			 (bs->endian >= 2) ? "bits" : "bytes");
 		return FALSE;
 	}
 
